@@ -2683,6 +2683,10 @@ def prune_unused_graph_inputs_ir(graph: ir.Graph) -> None:
         # function arguments (named ``in_<index>`` by IRContext.add_input_for_invar).
         if name.startswith("in_"):
             suffix = name[3:]
+            # Layout-adapted inputs are named ``in_<index>_nchw`` by the
+            # converter; they are positional arguments as well.
+            if suffix.endswith("_nchw"):
+                suffix = suffix[: -len("_nchw")]
             if suffix.isdigit():
                 return True
         return False
